@@ -15,6 +15,10 @@ def N(id, props, what, *edits):
 BT = "src/bintree.c"
 RB = "src/rbtree.c"
 HP = "src/heap.c"
+AR = "src/array.c"
+MM = "src/memory.c"
+MH = "include/cstl/memory.h"
+HS = "src/hash.c"
 DL = "src/dlist.c"
 SL = "src/slist.c"
 
@@ -260,6 +264,28 @@ M("c06-relaxed-soft", "C06", "reference-count decrement with memory_order_relaxe
   (MM, "        if (atomic_fetch_sub(&data->ref.soft, 1) == 1) {", "        if (atomic_fetch_sub_explicit(&data->ref.soft, 1, memory_order_relaxed) == 1) {"))
 M("c06-plain-flag", "C06", "the lock flag is released with a relaxed clear",
   (MM, "        atomic_flag_clear(&data->ref.lock);\n    }\n}", "        atomic_flag_clear_explicit(&data->ref.lock, memory_order_relaxed);\n    }\n}"))
+# ----------------------------------------------------------------- C11
+M("c11-pivot-not-tracked", "C11", "pivot pointer not updated after a swap",
+  (AR, "            if (p == a) {\n                p = b;\n            } else if (p == b) {\n                p = a;\n            }", "            if (p == b) {\n                p = a;\n            }"))
+M("c11-recursion-open", "C11", "recursion on [0,m) instead of [0,m]",
+  (AR, "            cstl_raw_array_qsort(\n                arr, m + 1, size,", "            cstl_raw_array_qsort(\n                arr, m, size,"))
+M("c11-heapify-low", "C11", "heapify starts one parent too low",
+  (AR, "        for (i = count / 2 - 1; i >= 0; i--) {", "        for (i = count / 2 - 2; i >= 0; i--) {"))
+M("c11-search-lt", "C11", "binary search loops while i < j",
+  (AR, "    for (i = 0, j = count - 1; i <= j;) {", "    for (i = 0, j = count - 1; i < j;) {"))
+M("c11-sift-smaller", "C11", "heap sift-down compares the right child against n instead of the current best",
+  (AR, "        if (r < count\n            && cmp(__cstl_raw_array_at(arr, size, r),\n                   __cstl_raw_array_at(arr, size, c),", "        if (r < count\n            && cmp(__cstl_raw_array_at(arr, size, r),\n                   __cstl_raw_array_at(arr, size, n),"))
+M("c11-median-unsorted", "C11", "median-of-three leaves the triple unsorted (second comparison dropped)",
+  (AR, "            } else if (cmp(end, mid, priv) < 0) {\n                swap(end, mid, tmp, size);\n            }", "            }"))
+M("c11-selector-fallback", "C11", "selector fallback missing (out-of-range does nothing)",
+  (AR, "    default:\n        cstl_raw_array_sort(\n            arr, count, size, cmp, priv, swap, tmp,\n            CSTL_SORT_ALGORITHM_DEFAULT);\n        break;", "    default:\n        break;"))
+M("c11-find-last", "C11", "find keeps scanning and returns the last match",
+  (AR, "        if (cmp(ex, __cstl_raw_array_at(arr, size, i), priv) == 0) {\n            return i;\n        }\n    }\n\n    return -1;", "        if (cmp(ex, __cstl_raw_array_at(arr, size, i), priv) == 0) {\n            r = i;\n        }\n    }\n\n    return r;"),
+  (AR, "    size_t i;\n\n    for (i = 0; i < count; i++) {\n        if (cmp(ex,", "    size_t i; ssize_t r = -1;\n\n    for (i = 0; i < count; i++) {\n        if (cmp(ex,"))
+M("c11-reverse-odd", "C11", "reverse stops one pair early",
+  (AR, "    for (i = 0, j = count - 1; i < j; i++, j--) {\n        swap(", "    for (i = 0, j = count - 1; i + 1 < j; i++, j--) {\n        swap("))
+M("c11-swap-8-as-4", "C11", "cstl_swap moves only 4 bytes of 8-byte elements",
+  ("include/cstl/common.h", "    case sizeof(uint64_t): EXCH(uint64_t, x, y, t); break;", "    case sizeof(uint64_t): EXCH(uint32_t, x, y, t); break;"))
 # ----------------------------------------------------------------- C14
 AR = "src/array.c"
 M("c14-at-no-offset", "C14", "at ignores the view offset",
@@ -280,6 +306,8 @@ M("c14-release-internal", "C14", "release also hands out internal buffers",
 M("c14-at-le", "C14", "at accepts index == size",
   (AR, "    if (i >= a->len) {\n        abort();", "    if (i > a->len) {\n        abort();"))
 
+N("neg-heapify-extra", ["C11"], "heapify loop starts at count/2 (one extra, childless, index)",
+  (AR, "        for (i = count / 2 - 1; i >= 0; i--) {", "        for (i = count / 2; i >= 0; i--) {"))
 # ------------------------------------------------------- negative controls
 N("neg-vector-overallocate", ["C09", "C10"], "vector growth over-allocates",
   (VC, "    if (sz > v->cap) {\n        cstl_vector_set_capacity(v, sz);\n    }", "    if (sz > v->cap) {\n        cstl_vector_set_capacity(v, sz < 1000 ? sz + sz / 2 + 1 : sz);\n    }"))
